@@ -61,11 +61,17 @@ def rule_full_data(ctx):
             rs = TB.return_sites(cb, P)
             if rs:
                 kt = T.strip(rs[0][2])
-                flds = [x[2] for x in T.walk(kt) if x[0] == "field" and isinstance(x[2], str)]
+                flds = []
+                for x in T.walk(kt):
+                    if x[0] == "field" and isinstance(x[2], str) and x[2] not in flds:
+                        flds.append(x[2])
+                # identity of the ordering key: the fields it reads and the arithmetic applied - not whether it is written as a key
+                # function (`sort_by_key(|s| s.sequence)`) or as a comparator (`sort_by(|a, b| a.sequence.cmp(&b.sequence))`)
                 keyform = ".".join(flds[:2]) or T.pp(kt)[:30]
                 if casts:
                     keyform += " as " + ",".join(casts)
-                ops = sorted({x[1] for x in T.walk(kt) if x[0] == "binop"} | {T.short(x[1]).split("::")[-1] for x in T.calls_in(kt)})
+                ops = sorted({x[1] for x in T.walk(kt) if x[0] == "binop"} |
+                             ({T.short(x[1]).split("::")[-1] for x in T.calls_in(kt)} - {"cmp", "partial_cmp", "total_cmp", "deref", "borrow", "as_ref"}))
                 if ops:
                     keyform += " via " + ",".join(ops)
         ctx.check(reads_seq, "R1", "get_full_data:sort-key", "segments ordered by their sequence field", "sort key does not read TcpData.sequence", ctx.loc(b, blk))
